@@ -103,11 +103,12 @@ func (p Percentage) Base() Amount {
 // Amount provides an amount for the percentage that has been rescaled
 // from the underlying value mainly to be used for formatting.
 func (p Percentage) Amount() Amount {
-	e := int64(p.amount.exp) - 2
-	if e < 0 {
-		e = 0
+	// multiplying by 100 is moving the decimal point two places: done on the
+	// digits themselves it is exact for every value
+	if p.amount.exp >= 2 {
+		return Amount{value: p.amount.value, exp: p.amount.exp - 2}
 	}
-	return p.amount.Multiply(factor100).Rescale(uint32(e))
+	return Amount{value: p.amount.value * intPow(10, 2-p.amount.exp), exp: 0}
 }
 
 // Rescale will rescale the percentage value to the provided exponent.
